@@ -234,7 +234,7 @@ def make_workspace(ctx, rng, sleepers):
             ctx.count("orphan_links_present")
     # experiments: index and backup index
     for xi in range(rng.randint(1, 3)):
-        xdir = wd / "xp" / f"xp{xi}"
+        xdir = wd / "xp" / XPNAMES[xi]
         for kind in ("jobs", "jobs.bak"):
             if kind == "jobs.bak" and rng.random() < 0.5:
                 continue
@@ -245,7 +245,7 @@ def make_workspace(ctx, rng, sleepers):
                     if not link.is_symlink():
                         link.symlink_to(j["path"])
                         indexed.add(j["rel"])
-                        j.setdefault("xps" if kind == "jobs" else "xps_bak", []).append(f"xp{xi}")
+                        j.setdefault("xps" if kind == "jobs" else "xps_bak", []).append(XPNAMES[xi])
             if rng.random() < 0.3:
                 # a dangling link: indexed job whose directory is gone
                 link = xdir / kind / "xvmodels.zoo.taskt" / ("f" * 64)
@@ -254,6 +254,10 @@ def make_workspace(ctx, rng, sleepers):
                     link.symlink_to(wd / "jobs" / "xvmodels.zoo.taskt" / ("f" * 64))
             (xdir / kind).mkdir(parents=True, exist_ok=True)
     return wd, jobs, indexed
+
+
+# experiment names that contain one another
+XPNAMES = ["rank", "rerank", "rank-v2"]
 
 
 def tree(wd):
@@ -286,7 +290,7 @@ def part2(ctx, rng, n):
                     args.append("--perform")
                 xpname = None
                 if rng.random() < 0.35:
-                    xpname = rng.choice(["xp0", "xp0", "xp1", "xp2", "xplinked"])
+                    xpname = rng.choice(XPNAMES + ["rank", "xplinked", "nosuchxp"])
                     args += ["--experiment", xpname]
                     ctx.count("clean_cases_with_experiment")
                 res = runner.invoke(cli, args)
